@@ -282,6 +282,8 @@ static int ex_search(char **pat)
 	return row >= 0 && row < lbuf_len(xb) ? row : -1;
 }
 
+#define EX_NOADDR	(-(1 << 28))	/* an address that does not resolve */
+
 static int ex_lineno(char **num)
 {
 	int n = xrow;
@@ -295,12 +297,13 @@ static int ex_lineno(char **num)
 		break;
 	case '\'':
 		if (lbuf_jump(xb, (unsigned char) *++(*num), &n, NULL))
-			return -1;
+			return EX_NOADDR;
 		++*num;
 		break;
 	case '/':
 	case '?':
-		n = ex_search(num);
+		if ((n = ex_search(num)) < 0)
+			n = EX_NOADDR;
 		break;
 	default:
 		if (isdigit((unsigned char) **num)) {
